@@ -708,6 +708,20 @@ EDIT_OPS = [
 ]
 
 
+def readd_theme(rng, edits):
+    """Insert (in order, other edits in between) the sequence: add a file - delete it - add the same content again."""
+    kind = rng.choice(["add_file_same", "add_file_same", "add_file_path", "add_file_io"])
+    k = rng.randrange(10**6)
+    theme = [{"op": kind, "k": k}, {"op": "del_last_added", "k": 0}, {"op": kind, "k": k}]
+    if rng.random() < 0.3:
+        theme += [{"op": "del_last_added", "k": 0}]
+    pos = sorted(rng.randrange(len(edits) + 1) for _ in theme)
+    out = list(edits)
+    for off, (at, op) in enumerate(zip(pos, theme)):
+        out.insert(at + off, op)
+    return out
+
+
 def gen_edits(rng, n, allow=None):
     ops = []
     for _ in range(n):
@@ -725,6 +739,7 @@ class EditModel:
         self.added: list[str] = []
         self.deleted: set[str] = set()
         self.frozen: set[str] = set()  # XML parts that must not be edited any more in this history
+        self.added_bytes: dict[str, bytes] = {}  # what add_file was given, by returned uri
 
 
 def apply_edit(doc, op, model: EditModel, tmpdir):
@@ -791,6 +806,7 @@ def apply_edit(doc, op, model: EditModel, tmpdir):
         else:
             uri = doc.add_file(io.BytesIO(data))
         model.added.append(uri)
+        model.added_bytes[uri] = data
         model.deleted.discard(uri)
     elif o == "set_part_xml":
         path = ["content.xml", "styles.xml", "settings.xml"][k % 3]
@@ -824,10 +840,10 @@ def apply_edit(doc, op, model: EditModel, tmpdir):
         path = cands[k % len(cands)]
         doc.del_part(path)
         model.deleted.add(path)
-    elif o == "del_added":
+    elif o in ("del_added", "del_last_added"):
         if not model.added:
             return "skipped"
-        path = model.added[k % len(model.added)]
+        path = model.added[-1] if o == "del_last_added" else model.added[k % len(model.added)]
         if path in model.deleted:
             return "skipped"
         doc.del_part(path)
@@ -878,6 +894,13 @@ def expected_state(doc, model: EditModel):
     return st
 
 
+FOLDER_NAMES = ["out", "letter", "order", "newsletter", "proof.odf", "offer", "report.odt", "my.folder.copy", "red", "x.ods", "folder"]
+
+
+class ArtefactMissing(Exception):
+    """The save returned but nothing is at the place the caller asked for."""
+
+
 def save_doc(doc, how, tmpdir, pretty=False, tag="", reuse=None):
     """how ∈ {"zip-path","zip-io","folder","xml-io"} -> (artefact, Package or bytes).
     reuse: a dict kept by the caller; when given, successive zip / folder saves go to the very same
@@ -893,8 +916,16 @@ def save_doc(doc, how, tmpdir, pretty=False, tag="", reuse=None):
         doc.save(buf, pretty=pretty)
         return buf.getvalue(), Package(buf.getvalue())
     if how == "folder":
-        path = os.path.join(tmpdir, f"out{tag}")
-        doc.save(path, packaging="folder", pretty=pretty)
+        # target names users give: with or without the ".folder" suffix, base names ending in letters of
+        # that suffix, with another extension, holding ".folder" in the middle
+        import zlib
+
+        h = zlib.crc32(f"folder/{tag}".encode())
+        base = FOLDER_NAMES[h % len(FOLDER_NAMES)]
+        path = os.path.join(tmpdir, f"t{tag}_{base}")
+        doc.save(path + ".folder" if (h >> 8) % 3 == 0 else path, packaging="folder", pretty=pretty)
+        if not os.path.isdir(path + ".folder"):
+            raise ArtefactMissing(f"saved as folder to {os.path.basename(path)!r}: no directory {os.path.basename(path)}.folder (found: {sorted(os.listdir(tmpdir))[:6]})")
         return path + ".folder", Package(path + ".folder")
     if how == "xml-io":
         buf = io.BytesIO()
